@@ -675,6 +675,22 @@ def rel_sphere(c, r):
         same = p2.shape == pts.shape and amax(p2 - pts) <= TOL
         r.chk("sphere_unit_azel_consistent", 0.0 if (same and len(both[1]) == pts.shape[0]) else 1.0, 0.5,
               {"points": list(p2.shape), "azel": len(both[1])})
+    # the caller scales and shifts what it was handed, in place; the next call with the same count (and with a neighbouring
+    # one) still hands out unit vectors
+    fn = fsr.fiboSphere if c["kind"] == "fibo" else fsr.unitSphere
+    first = call(fn, n)
+    keep = np.array(first, float).copy()
+    if isinstance(first, np.ndarray) and first.flags.writeable:
+        first *= 3.0
+        first += 0.5
+    for m in (n, n + 1):
+        again = np.asarray(call(fn, m), float)
+        if again.ndim == 2 and again.shape[1] == 3 and again.shape[0] >= 1:
+            r.chk("sphere_%s_unit_norm_after_caller_scaled_result" % c["kind"], amax(np.linalg.norm(again, axis=1) - 1.0), TOL,
+                  {"asked": m, "scaled_call": n})
+            if m == n:
+                r.chk("sphere_%s_unit_norm_after_caller_scaled_result" % c["kind"],
+                      amax(again - keep) if again.shape == keep.shape else float("inf"), TOL, {"asked": m, "what": "same points as before"})
     return True
 
 
